@@ -54,11 +54,12 @@ def spellings(env, modes, i, k, vec_of):
     """the k-th accepted spelling of flat action i"""
     if modes["flat_actions"]:
         forms = [lambda: int(i), lambda: np.int64(i), lambda: np.int32(i), lambda: np.array(i)[()],
-                 lambda: env.action_space.actions[i]]
+                 lambda: env.action_space.actions[i], lambda: np.uint16(i), lambda: np.uint64(i), lambda: np.int16(i)]
     else:
         v = vec_of(i)
         forms = [lambda: list(v), lambda: tuple(v), lambda: np.array(v, dtype=np.int64),
-                 lambda: np.array(v, dtype=np.int32), lambda: env.action_space.actions[i]]
+                 lambda: np.array(v, dtype=np.int32), lambda: env.action_space.actions[i],
+                 lambda: np.array(v, dtype=np.uint8), lambda: np.array(v, dtype=np.uint32), lambda: np.array(v, dtype=np.int8)]
     f = forms[k % len(forms)]
     return f(), k % len(forms)
 
@@ -122,6 +123,8 @@ def run_case(case, rep, record=True):
             act = h.choose(op)
             i = h.real_index[act.key()]
             a, form = spellings(env, modes, i, op[1], lambda j: vector_of(spec, h.acts[j]) if j < len(h.acts) else None)
+            if not isinstance(a, (int, list, tuple)) and not hasattr(a, "target") and not env.action_space.contains(a):
+                a, form = spellings(env, modes, i, 0, lambda j: vector_of(spec, h.acts[j]))   # not a member in this spelling
             side, seed, draw = h.pick_seed(act, op[-2], op[-1])
             np.random.seed(seed)
             try:
